@@ -527,6 +527,7 @@ class Eval:
     plain: object = None
     coq: str | None = None
     kind: str = ""
+    nan_zone: bool = False
 
 
 def flat_replay_dict(ev: Eval) -> dict:
@@ -542,11 +543,19 @@ def eval_flat(ns: dict, src: str, fields, o: Opts, vals, want_coq=True) -> Eval:
     defaults = field_defaults(fields, ns)
     inst = eval(inst_src("X", fields, vals), ns)
     twin = eval(inst_src("XPlain", fields, vals), ns)
-    plain = twin.to_dict()
+    try:
+        plain = twin.to_dict()
+    except Exception as ex:   # the option-free class itself does not serialize: nothing to project
+        ev.ok = False
+        ev.kind = "plain-raised-" + type(ex).__name__
+        ev.observed = ev.expected = None
+        ev.what = f"the option-free twin raised {type(ex).__name__}: {ex}"
+        return ev
     ev.plain = plain
     e = effective(o)
     expected = project(e, fields, defaults, inst, plain)
     ev.expected = expected
+    ev.nan_zone = nan_nonnumber(fields, defaults, inst)
     try:
         observed = run_entry(o, ns, "X", inst)
     except Exception as ex:  # the property promises a mapping
@@ -837,7 +846,14 @@ def run_nested(ctx: vlib.Ctx, ncases: list[str], ninfo: list):
             t = gen_tree(rng, table, 0)
             inst = eval(tree_src(table, t, "C"), ns)
             twin = eval(tree_src(table, t, "P"), ns)
-            plain = twin.to_dict()
+            try:
+                plain = twin.to_dict()
+            except Exception as ex:
+                ctx.fail(f"nested: the option-free twin raised {type(ex).__name__}: {ex}"[:300],
+                         {"kind_of_case": "nested", "source": src, "cls": "C0", "twin": "P0", "instance": tree_src(table, t, "C"),
+                          "twin_instance": tree_src(table, t, "P"), "entry": "to_dict", "kwargs": "", "default_dialect": None,
+                          "expected": "a mapping"}, {"kind": "plain-raised-" + type(ex).__name__, "entry": "nested"})
+                continue
             hits: dict = {}
             all_flags = (True, True, True, True)
             avail = (kon, kba, call)
@@ -861,6 +877,8 @@ def run_nested(ctx: vlib.Ctx, ncases: list[str], ninfo: list):
             ncases.append(f"({coq_table(table, ns, enc)}, {coq_node(table, t, inst, plain, enc)}, "
                           f"(K {coq_ob(kon)} {coq_ob(kba)} {coq_ns(call)}), (Some {coq_tree_value(observed, enc)}), {coq_bool(in_domain)})")
             ninfo.append(rep)
+            rep["_ok"] = typed(observed) == typed(expected)
+            rep["_kf_zone"] = bool(hits)
             if typed(observed) != typed(expected):
                 kind = "nested-projection-mismatch"
                 if hits:
@@ -970,7 +988,8 @@ def run(ctx: vlib.Ctx):
         "D14 corner (call dialect vs forwarded keyword defaults) excluded by flag_defaults_ok and proved refuted",
     ]
     thm = ["C08_project_partial", "C08_project_refuted", "C08_nan_default_refuted", "C08_project_actual"]
-    ctx.theorems("props/C08_kernels.vo", ["K3_order", "K3_look", "K8_forward", "K8_use_kwargs"], kernels=["K3", "K8"])
+    ctx.theorems("props/C08_kernel_K3.vo", ["K3_order", "K3_look"], kernels=["K3"])
+    ctx.theorems("props/C08_kernel_K8.vo", ["K8_forward", "K8_use_kwargs"], kernels=["K8"])
     ctx.theorems("props/C08_project.vo", thm)
     ctx.theorems("props/C08_nested.vo", ["C08_nested_partial", "C08_union_flags_refuted", "C08_forwarded_exactly", "C08_no_leak"])
 
@@ -991,6 +1010,14 @@ def run(ctx: vlib.Ctx):
         ctx.correspondence(name, len(cases), -1, log)
         ctx.not_shown("correspondence " + name, log)
     else:
+        # a listed finding that no longer reproduces: the faithful model still contains the defect, the
+        # implementation now satisfies the property on that case -> model-stale note, not a violation
+        stale = [i for i in bad if info[i].ok and (d14_signature(info[i].o) or info[i].nan_zone)]
+        bad = [i for i in bad if i not in set(stale)]
+        if stale:
+            ctx.notes.append(f"model-stale: {len(stale)} correspondence cases inside the signatures of listed findings "
+                             f"(call-dialect-vs-flag-defaults / omit-default-nan-isnan) now satisfy the property; "
+                             f"the finding no longer reproduces there")
         detail = ""
         if bad:
             ev = info[bad[0]]
@@ -1007,6 +1034,11 @@ def run(ctx: vlib.Ctx):
         ctx.correspondence(name, len(ncases), -1, log)
         ctx.not_shown("correspondence " + name, log)
     else:
+        stale = [i for i in bad if ninfo[i]["_ok"] and ninfo[i]["_kf_zone"]]
+        bad = [i for i in bad if i not in set(stale)]
+        if stale:
+            ctx.notes.append(f"model-stale: {len(stale)} nested correspondence cases inside the signatures of listed findings "
+                             f"(union-member-flags / call-dialect-vs-flag-defaults) now satisfy the property")
         detail = ""
         if bad:
             r = ninfo[bad[0]]
@@ -1025,7 +1057,10 @@ def replay(rep: dict) -> int:
     ns = load(rep["source"])
     inst = eval(rep["instance"], ns)
     twin = eval(rep["twin_instance"], ns)
-    plain = twin.to_dict()
+    try:
+        plain = twin.to_dict()
+    except Exception as ex:
+        plain = f"{type(ex).__name__}: {ex}"
     try:
         if rep.get("entry") == "codec":
             from mashumaro.codecs.basic import BasicEncoder
